@@ -1,5 +1,6 @@
 import PdeVerif.Json
 import PdeVerif.Model.Controller
+import PdeVerif.Model.ControllerHeap
 import PdeVerif.Model.StepMaps
 namespace PdeVerif.Drv.C07
 open Lean PdeVerif PdeVerif.Interrupts PdeVerif.Controller PdeVerif.StepMaps
@@ -23,6 +24,13 @@ the simulated state of the controller model is `SolverState K` (cell value, pers
 ConvergenceError); reported are the cell values.
 answer: {"t_final","steps","state","aux","initial","exit","stop_reason","successful","iters",
          "trace":[[tracker,t,u]..], "trackers":[{"calls","times","frames","finalized","due"}..]}
+
+c07.heap: the same request plus "heap":{"before":[x..],"after":[x..]} - the cell values of the field objects that
+exist besides the caller's initial state (addresses 0.., the caller's object, then the rest).  Evaluates the heap-level
+model `Controller.runHeapSpec` (Model/ControllerHeap.lean: `copy()` allocates, the stepper writes in place); "state" is
+the content of the returned object, "initial" the content of the caller's object after the run; additional fields
+"caller" / "obj" (addresses), "aliased" (returned object is the caller's), "allocs", "heap_before", "heap_after"
+(cell values of all objects in address order).
 -/
 
 section
@@ -122,7 +130,23 @@ def runJson (getK : Json → Except String K) (putK : K → Json) (j : Json) : E
   let exact := (match fldOpt j "stepper" with | some (.str "exact") => true | _ => false)
   -- exact steppers (ScipySolver): the compared state is that of u' = 1, `flow u t s = u + (s - t)`
   let fuel : Nat ← (if exact then fldN j "fuel" else pure 0)
-  let r := if exact then
+  let heapReq := fldOpt j "heap"
+  if exact && heapReq.isSome then throw "heap mode is for the fixed steppers only"
+  let mkObjs : Json → String → Except String (List (SolverState K)) := fun hj k => do
+    let xs ← getL getK (← fld hj k)
+    pure (xs.map (fun x => some (x, x)))
+  let (hp, caller) ← (match heapReq with
+    | some hj => do
+      let before ← mkObjs hj "before"
+      let after ← mkObjs hj "after"
+      pure (Heap.ofList (before ++ [s0] ++ after) s0, before.length)
+    | none => pure (Heap.ofList [s0] s0, 0))
+  let R := runHeapSpec dt tStart tEnd eps step hp caller specs
+  let r : Result K (SolverState K) (Sched K) :=
+    if heapReq.isSome then
+      { tFinal := R.tFinal, state := R.heap.cell R.obj, initial := R.heap.cell caller, steps := R.steps,
+        trackers := R.trackers, trace := R.trace, exit := R.exit, iters := R.iters }
+    else if exact then
       runExactSpec dt tStart tEnd eps (fun s t e => s.map (fun p => (p.1 + (e - t), p.2))) s0 specs fuel
     else runSpec dt tStart tEnd eps step s0 specs
   let putS : SolverState K → Json := fun s => match s with
@@ -133,7 +157,7 @@ def runJson (getK : Json → Except String K) (putK : K → Json) (j : Json) : E
     | some p => putK p.2
   if r.trackers.any (fun tr => isBroken tr.sched) then throw "geometric search out of fuel"
   let putO : Option K → Json := fun o => match o with | none => Json.str "inf" | some x => putK x
-  pure (Json.mkObj [
+  pure (Json.mkObj ([
     ("t_final", putK r.tFinal), ("steps", toJson r.steps), ("state", putS r.state),
     ("aux", putA r.state), ("initial", putS r.initial), ("exit", Json.str (exitTag r.exit)),
     ("stop_reason", Json.str r.exit.reason), ("successful", toJson r.exit.successful),
@@ -142,7 +166,12 @@ def runJson (getK : Json → Except String K) (putK : K → Json) (j : Json) : E
     ("trackers", Json.arr (r.trackers.map (fun tr => Json.mkObj [
       ("calls", toJson tr.calls), ("times", Json.arr (tr.times.map putK).toArray),
       ("frames", Json.arr (tr.frames.map putS).toArray), ("finalized", toJson tr.finalized),
-      ("due", putO tr.due)])).toArray)])
+      ("due", putO tr.due)])).toArray)] ++
+    (if heapReq.isSome then [
+      ("caller", toJson caller), ("obj", toJson R.obj), ("aliased", toJson (R.obj == caller)),
+      ("allocs", toJson (R.heap.next - hp.next)),
+      ("heap_before", Json.arr (hp.toList.map putS).toArray),
+      ("heap_after", Json.arr (R.heap.toList.map putS).toArray)] else [])))
 
 end
 
@@ -151,5 +180,9 @@ def run (j : Json) : Except String Json := do
   if mode == "Q" then runJson (K := Rat) getQ jQ j
   else runJson (K := Float) getF jF j
 
-def handlers : List (String × Handler) := [("c07.run", run)]
+def runHeapH (j : Json) : Except String Json := do
+  if (fldOpt j "heap").isNone then throw "c07.heap: field `heap` missing"
+  run j
+
+def handlers : List (String × Handler) := [("c07.run", run), ("c07.heap", runHeapH)]
 end PdeVerif.Drv.C07
